@@ -230,6 +230,22 @@ def oracle(c, o):
     names = Names()
     steps = o["steps"]
     prev = None
+    wanted_from = {}      # (node, key) -> holders a fetch of key was scheduled or queued for
+    fetched_from = set()  # (node, key, holder): a fetch that was actually delivered to the holder
+    any_drop = False
+    for s in steps:
+        for x in s["log"]:
+            if "keys_to_fetch" in x:
+                for holder, key in x["keys_to_fetch"]:
+                    wanted_from.setdefault((x["node"], json.dumps(key, sort_keys=True)), set()).add(holder)
+        for j, n in enumerate(s["state"]):
+            for q in n.get("queued", []):
+                wanted_from.setdefault((j, json.dumps(q[0], sort_keys=True)), set()).add(q[2])
+        d = s["eff"].get("deliver")
+        if d and d.get("t") == "fetch":
+            fetched_from.add((d["from"], json.dumps(d["key"], sort_keys=True), d["to"]))
+        if "drop" in s["eff"]:
+            any_drop = True
     for si, s in enumerate(steps):
         e = s["eff"]
         st = s["state"]
@@ -298,7 +314,12 @@ def oracle(c, o):
                     if k not in hb:
                         v.append(("not-replicated", "after %d full rounds node %d still lacks %s held by its neighbour %d" % (c["full_rounds"], b, k, a)))
                     elif hb[k] != ca and merge_expected(hb[k], ca) != hb[k]:
-                        v.append(("held-key-other-version", "after %d full rounds nodes %d and %d still hold different versions of %s: %s vs %s" % (c["full_rounds"], a, b, k, ca, hb[k])))
+                        if a in wanted_from.get((b, k), set()) and (b, k, a) not in fetched_from and not any_drop:
+                            # not the known class: node b HAD scheduled / queued a fetch of this key from a (it
+                            # did not hold the key then) and that fetch was never carried out
+                            v.append(("scheduled-fetch-lost", "node %d queued or scheduled a fetch of %s from node %d, every message was delivered, yet the fetch was never made and the versions still differ: %s vs %s" % (b, k, a, ca, hb[k])))
+                        else:
+                            v.append(("held-key-other-version", "after %d full rounds nodes %d and %d still hold different versions of %s: %s vs %s" % (c["full_rounds"], a, b, k, ca, hb[k])))
     return v
 
 
@@ -513,12 +534,42 @@ def gen_midflight(rng, idx):
     return {"kind": "midflight-" + kind, "nodes": nodes, "ops": ops, "full_rounds": 1}
 
 
+def gen_saturated(rng, idx):
+    """node 1's fetcher is at its parallel-fetch cap when node 2's list arrives, so node 2's version of a
+    mutable record waits in the queue; node 0's version of the same key is fetched first (single-key list,
+    which bypasses the cap); later lists and freed slots must still lead to node 2's version being fetched"""
+    nodes = rng.sample(range(1, 60), 3)
+    ops = connects(3, rng, True)
+    for j in range(21 + rng.randint(0, 3)):
+        ops.append(seed(0, rec_chunk(idx * 100 + j)))
+    o = rng.randint(1, 30)
+    kind = rng.choice(["reg", "txs"])
+    if kind == "reg":
+        va, vc = rec_reg(o, 1, [1, 2]), rec_reg(o, 1, [1, 3])
+    else:
+        va, vc = rec_txs(o, [1, 2]), rec_txs(o, [1, 3])
+    ops.append(seed(2, vc))
+    ops.append(seed(2, rec_chunk(idx * 100 + 50)))
+    ops.append({"op": "replicate", "node": 0})
+    ops.append({"op": "deliver", "i": 0})            # node 0's list reaches node 1 (the first candidate may be node 2: then harmless)
+    ops.append({"op": "deliver", "i": 0})
+    ops.append({"op": "replicate", "node": 2})
+    ops.append({"op": "run_replicates"})             # every pending list is delivered, no fetch yet
+    ops.append(seed(0, va))
+    ops.append({"op": "advert", "to": 1, "holder": 0, "keys": [[va["key"], {"ncb": 7}]]})
+    ops.append({"op": "run_fetch_of", "key": va["key"]})
+    ops.append({"op": "replicate", "node": 0})
+    ops.append({"op": "run_replicates"})
+    ops.append({"op": "run", "picks": [rng.randrange(0, 5) for _ in range(5)]})
+    return {"kind": "saturated-" + kind, "nodes": nodes, "ops": ops, "full_rounds": 1}
+
+
 def gen(ctx):
     rng = ctx.rng
-    n = 80 if ctx.tier == "quick" else 1600
+    n = 90 if ctx.tier == "quick" else 1800
     cases = []
     for i in range(n):
-        f = [gen_missing, gen_missing, gen_divergent, gen_adverts, gen_partial, gen_ranged, gen_crowded, gen_midflight][i % 8]
+        f = [gen_missing, gen_missing, gen_divergent, gen_adverts, gen_partial, gen_ranged, gen_crowded, gen_midflight, gen_saturated][i % 9]
         cases.append(f(rng, 100 + i))
     return cases
 
